@@ -17,6 +17,8 @@ def run(ck, facts):
     adts = facts.all_adts()
     ck.units += ["diplomat_core.lib+hir (hir::methods, hir::lifetimes, ast::lifetimes, hir::lowering, hir::type_context)", "diplomat_tool.lib (js, dart, kotlin, nanobind)"]
     ck.rule("R1", "every managed backend's method generator creates the borrow visitor, visits self and every parameter unconditionally, and consumes borrow_map() of the same visitor into what the template renders")
+    ck.rule("R5", "use-site and def-site lifetimes are paired positionally: both sides of every zip in hir::lifetimes are order- and length-preserving chains; "
+                  "nanobind omits keep_alive only for outputs its caster copies (string slices)")
     ck.rule("R2", "shape coverage: every hir::Type variant that can carry lifetimes gets an edge kind without panicking (options are unwrapped first); the only early exit of visit_param is `no lifetime is used by the return type`; the return type's lifetime set covers Ok and Err payloads of every ReturnType constructor", exhaustive=True)
     ck.rule("R3", "graph construction direction: `'long: 'short` is recorded as short.longer += long and long.shorter += short; implied bounds are added for references reached through &, Option and Result; AST->HIR copies longer->longer, shorter->shorter; the visitor asks for all_longer_lifetimes, which walks the `longer` edges")
     ck.rule("R4", "validation restates implied bounds: validate_ty_in_method compares use-site and def-site `longer` sets and reports a missing bound")
@@ -266,3 +268,41 @@ def run(ck, facts):
     itm = C.strip(loop["iter"]).get("m") if loop and C.strip(loop["iter"]).get("k") == "mcall" else None
     ck.expect(itm == "lifetimes_all", "R4", "validate_ty_in_method/includes-reference-lifetime", "iterates linked.lifetimes_all()",
               "validate_ty_in_method iterates linked.%s(): the reference's own lifetime (`&'a T<'b>` => 'b: 'a) is no longer checked, only bounds declared on the type definition" % itm, C.loc(vt))
+
+
+    # ---------------- R5 positional pairing, keep_alive suppression set
+    PRESERVING = {"iter", "map", "copied", "cloned", "lifetimes", "all_lifetimes", "enumerate", "into_iter", "as_slice", "iter_mut", "by_ref", "peekable"}
+    nz = 0
+    for f in core.fn_list:
+        if "hir" not in f or "::hir::" not in f["path"]:
+            continue
+        for n in C.walk(C.fn_body(f)):
+            if n.get("k") == "mcall" and n.get("m") == "zip":
+                def chain(x):
+                    out = []
+                    x = C.strip(x)
+                    while isinstance(x, dict) and x.get("k") == "mcall":
+                        out.append(x["m"])
+                        x = C.strip(x["recv"])
+                    return out
+                both = chain(n["recv"]) + chain(n["a"][0])
+                badm = [m_ for m_ in both if m_ not in PRESERVING]
+                nz += 1
+                key = "%s/zip#%d" % (C.norm_path(f["path"]).split("::", 1)[1], sum(1 for i in ck.instances if i["rule"] == "R5" and i["key"].startswith(C.norm_path(f["path"]).split("::", 1)[1] + "/zip")))
+                ck.expect(not badm, "R5", key, "zip(%s)" % both, "one side of the use-site/def-site pairing passes through %s before the zip: positions shift (e.g. a `'static` argument in an earlier slot "
+                          "pairs every later lifetime with the wrong definition-site lifetime)" % badm, C.loc(f, n.get("ln")))
+    if nz < 2:
+        ck.bad("R5", "zip-floor", "only %d zip pairings found in diplomat_core::hir (2 counted: lifetimes_def_only, lifetimes_all)" % nz)
+    nb = tool.fn("nanobind::ty::TyGenContext::gen_method_info")
+    sup = None
+    for iff in C.walk(C.fn_body(nb)):
+        if iff.get("k") != "if" or not any("keep_alive" in l for l in C.str_lits(iff["t"]) + [m_.get("src", "") for m_ in C.walk(iff["t"]) if m_.get("k") == "macro"]):
+            continue
+        for n in C.walk(iff["c"]):
+            if n.get("k") == "macro" and n.get("name") == "matches" and any(x.get("k") == "mcall" and x.get("m") == "success_type" for x in C.walk(n)):
+                mm = next((x for x in C.walk(n) if x.get("k") == "match"), None)
+                negated = any(x.get("k") in ("un", "unary") and x.get("op") == "Not" for x in C.walk(iff["c"]))
+                if mm and negated:
+                    sup = sorted(v.show() for v, hits in C.decision_table(mm, adts) if hits and hits[0][0] == 0)
+    ck.expect(sup == ["OutType(Slice(Str))"], "R5", "nanobind::gen_method_info/keep_alive-suppressed-for", str(sup),
+              "nanobind drops nb::keep_alive for outputs %s; only string slices are copied by their caster (expected ['OutType(Slice(Str))']): a borrowed primitive-slice view would outlive the object it points into" % sup, C.loc(nb))
